@@ -311,11 +311,11 @@ The translator also emits balanced binary search trees over the index keys / the
 "every key computed by the model from the table is found in the tree with its owner" is linear·log for the kernel and
 implies collision-freeness whatever the tree looks like (a wrong tree can only make the check fail). -/
 
-inductive Tree (α : Type)
+inductive KeyTree (α : Type)
   | leaf
-  | node (l : Tree α) (k : Nat) (v : α) (r : Tree α)
+  | node (l : KeyTree α) (k : Nat) (v : α) (r : KeyTree α)
 
-def Tree.find {α : Type} : Tree α → Nat → Option α
+def KeyTree.find {α : Type} : KeyTree α → Nat → Option α
   | .leaf, _ => none
   | .node l k v r, q => if q.beq k then some v else if Nat.blt q k then l.find q else r.find q
 
